@@ -59,6 +59,10 @@ var contexts = []struct {
 	{"last-statement", false, true}, // discarded result then implicit return: frame reuse is an unclaimed, value-preserving optimisation
 	{"stmt-then-return", false, false},
 	{"return-in-array", false, false},
+	// the call is the operand of a one-instruction wrapper that stands between CALL and RETURN
+	{"return-immutable", false, false},
+	{"return-error", false, false},
+	{"return-not", false, false},
 	// two recursive sites of different shape in one function (frame reuse state must survive the alternation)
 	{"mixed-odd-returns", false, true},
 	{"mixed-even-returns", false, true},
@@ -197,6 +201,12 @@ func build(c Case) *gen.Program {
 		body = append(body, baseRet, &gen.ExprStmt{X: call})
 	case "stmt-then-return":
 		body = append(body, baseRet, &gen.ExprStmt{X: call}, &gen.Return{X: N("7")})
+	case "return-immutable":
+		body = append(body, baseRet, &gen.Return{X: &gen.Immutable{X: call}})
+	case "return-error":
+		body = append(body, baseRet, &gen.Return{X: &gen.ErrorE{X: call}})
+	case "return-not":
+		body = append(body, baseRet, &gen.Return{X: &gen.Un{Op: "!", X: call}})
 	case "return-in-array":
 		body = append(body, baseRet, &gen.Return{X: &gen.Index{X: &gen.ArrayLit{Elems: []gen.Expr{call}}, I: N("0")}})
 	case "mixed-odd-returns":
